@@ -137,6 +137,7 @@ impl Interceptor for Tap {
                 pkt.pn,
                 0,
                 pkt.ack_eliciting(),
+                pkt.payload_len,
             ));
         }
     }
